@@ -12,4 +12,3 @@ func tmpReplica(w *World, owner *Actor, db dbm.DB, name string) (*Replica, error
 	}
 	return r, nil
 }
-
